@@ -440,6 +440,13 @@ impl Report {
             "coverage (steps without interrupt/pending prefix): encodings hit {}/1792, min hits per encoding {}, (encoding,T-state) variants {}, min hits per variant {}",
             hit, min_enc, variants, min_var
         );
+        if std::env::var_os("Z80DIFF_COVERAGE").is_some() {
+            // full table: one line per encoding with its observed T-state totals
+            for (i, m) in self.cov.iter().enumerate() {
+                let v: Vec<String> = m.iter().map(|(t, n)| format!("{}T:{}", t, n)).collect();
+                println!("COV {} {:02X} {}", CLASS_NAMES[i / 256], i % 256, v.join(" "));
+            }
+        }
         if self.groups.is_empty() {
             println!("no mismatches");
             return true;
